@@ -26,13 +26,32 @@ The property conditions on "returned": a call that raises is counted (trivial ca
 violation.  On the pinned tree dinucleotide_shuffle raises for every region of length <= 2
 (RuntimeError of max() on an empty tensor) and, for n > 1, when all shuffles coincide (ValueError).
 
-Negative `end`: only the default (end=-1, "the entire sequence") is exercised.  shuffle reads it
-as end = L, dinucleotide_shuffle slices [start:-1] (= [start, L-1)); the statement does not fix the
-convention, so for the default end the oracle asserts only what holds under both readings:
-composition over [start, L) preserved, first character of the region and last character of the
-sequence preserved, positions before `start` identical.
+Negative `end` (the default end=-1, "the entire sequence", and in the variant part -1 ... -6 passed
+explicitly).  shuffle reads end=-k as end = L+1-k, dinucleotide_shuffle slices [start:-k]
+(= [start, L-k)); the statement does not fix the convention.  Every clause that holds for the region
+[start, L-k) followed by one untouched position also holds for the region [start, L+1-k) (counts of
+characters / ordered pairs, first and last character, flanks), so the oracle asserts the clauses for
+[start, L+1-k): exactly what holds under both readings.
+
+Added by the coverage audit (kind 'call' unless noted; all replayable):
+ * variant part ('*-variant'): alphabets 2-6 and 20, more dtypes (uint8, int16, int32, float16,
+   float64, bool), explicit negative ends, all-default calls (start / end / n omitted; n read off the
+   result), random_state given as a numpy integer (the repeat call passes the python int of the same
+   value: same integer seed, same result), as None and (shuffle) as a RandomState object (clauses
+   other than determinism), verbose=True for dinucleotide_shuffle (the repeat call is made with
+   verbose=False: `verbose` is not among the arguments the result may depend on), the repeat call on
+   the same values in another memory layout;
+ * long sequences ('*-long', L 257 ... 70,000: beyond the range of 8- and 16-bit position indices);
+ * kind 'walk' with a region: the enumerated walk inside a public call on [start, end) of a longer
+   sequence (flanks present), n = 3, and *sampled* outcomes (explicit permutations stored in the
+   trail) for sequences of length 9-70 where enumeration is impossible: consumption of every
+   transition is asserted there too (the compiled calls can only see a stranded walk through its
+   output).
 """
+import contextlib
+import io
 import itertools
+import random
 import types
 
 import numpy
@@ -40,7 +59,7 @@ import torch
 
 from tangermeme import ersatz
 
-LETTERS = 'ACGT'
+LETTERS = 'ACGTBDEFHIJKLMNOPQRS'       # alphabets up to 20 characters (the first four as usual)
 
 SCOPE = {
     'quick': ('ENUMERATED WALK (python body of _fast_shuffle under an enumerating permutation source, inside the public dinucleotide_shuffle, whole sequence): every outcome of every '
@@ -66,7 +85,8 @@ SCOPE = {
 # inputs
 # ----------------------------------------------------------------------------------------------
 
-_DT = {'int8': torch.int8, 'float32': torch.float32, 'int64': torch.int64}
+_DT = {'int8': torch.int8, 'float32': torch.float32, 'int64': torch.int64, 'uint8': torch.uint8, 'int16': torch.int16,
+       'int32': torch.int32, 'float16': torch.float16, 'float64': torch.float64, 'bool': torch.bool}
 
 
 _IDX_ALL = {}
@@ -96,11 +116,25 @@ def _s(idx_row):
     return ''.join(LETTERS[int(c)] for c in idx_row)
 
 
+def _short(txt, k=160):
+    return txt if len(txt) <= k else '%s...(%d characters)' % (txt[:k], len(txt))
+
+
 def _case_idx(case):
     if 'all_len' in case:
         idx = _idx_all(case['A'], case['all_len'])
         if case.get('stride', 1) > 1:       # every stride-th sequence of the lexicographic list
             idx = idx[case.get('offset', 0)::case['stride']]
+        return idx
+    if 'gen' in case:                       # long inputs: {'B', 'L', 'seed', 'mode'} instead of the letters
+        g = case['gen']
+        gen = torch.Generator().manual_seed(g['seed'])
+        idx = torch.randint(0, case['A'], (g['B'], g['L']), generator=gen)
+        if g.get('mode') == 'runs':         # low complexity: runs of 1-40 equal characters
+            keep = torch.rand((g['B'], g['L']), generator=gen) < 0.1
+            keep[:, 0] = True
+            pos = torch.cummax(torch.where(keep, torch.arange(g['L']).expand(g['B'], -1), torch.zeros((), dtype=torch.int64)), dim=1).values
+            idx = torch.gather(idx, 1, pos)
         return idx
     return _idx_of(case['seqs'])
 
@@ -135,8 +169,8 @@ def _first_bad(mask_ok):
 
 def _describe(idx, Y, b, j, A):
     col_ok = bool((((Y[b, j] == 0) | (Y[b, j] == 1)).all()) and (Y[b, j].sum(dim=0) == 1).all())
-    got = _s(Y[b, j].argmax(dim=0)) if col_ok else str(Y[b, j].tolist())
-    return 'input %s (example %d) -> output %d = %s' % (_s(idx[b]), b, j, got)
+    got = _s(Y[b, j].to(torch.int8).argmax(dim=0)) if col_ok else str(Y[b, j].tolist())
+    return 'input %s (example %d) -> output %d = %s' % (_short(_s(idx[b])), b, j, _short(got, 400))
 
 
 def oracle(fn, idx, X, Y, A, s, e, n, default_end):
@@ -148,6 +182,10 @@ def oracle(fn, idx, X, Y, A, s, e, n, default_end):
         return ['result has shape %s, expected (B=%d, n=%d, A=%d, L=%d)' % (tuple(getattr(Y, 'shape', ())), B, n, A, L)]
     if n == 0 or B == 0:
         return out
+    if Y.dtype == torch.bool:
+        Y = Y.to(torch.int8)
+    if X.dtype == torch.bool:
+        X = X.to(torch.int8)
     Xe = X.unsqueeze(1)
     # valid one-hot
     oh = (((Y == 0) | (Y == 1)).all(dim=2)) & (Y.sum(dim=2) == 1)          # (B, n, L)
@@ -173,7 +211,7 @@ def oracle(fn, idx, X, Y, A, s, e, n, default_end):
     if fn == 'dinuc':
         yi = Y.argmax(dim=2)                                                 # (B, n, L)
         xi = idx.unsqueeze(1)
-        last = L - 1 if default_end else e - 1
+        last = e - 1                # (default / negative end: e is the later of the two readings, see the module text)
         fb = _first_bad((yi[:, :, s:s + 1] == xi[:, :, s:s + 1]) & (yi[:, :, last:last + 1] == xi[:, :, last:last + 1]))
         if fb is not None:
             out.append('first/last character of the region [%d,%d) changed: %s' % (s, e, _describe(idx, Y, fb[0], fb[1], A)))
@@ -223,17 +261,40 @@ def oracle_py(fn, seq, rows, A, s, e, n, default_end):
 # (a) one call of the real function
 # ----------------------------------------------------------------------------------------------
 
-def _call(fn, X, s, end, n, seed):
+def _call(fn, X, s, end, n, seed, verbose=False):
+    """arguments that are None are omitted (the function's defaults apply), except the seed"""
     f = ersatz.shuffle if fn == 'shuffle' else ersatz.dinucleotide_shuffle
-    if end is None:
-        return f(X, start=s, n=n, random_state=seed)
-    return f(X, start=s, end=end, n=n, random_state=seed)
+    kw = {'random_state': seed}
+    if s is not None:
+        kw['start'] = s
+    if end is not None:
+        kw['end'] = end
+    if n is not None:
+        kw['n'] = n
+    if verbose:
+        kw['verbose'] = True
+        with contextlib.redirect_stdout(io.StringIO()):
+            return f(X, **kw)
+    return f(X, **kw)
+
+
+def _seed_arg(seed, kind):
+    if kind == 'npint':
+        return numpy.int64(seed)
+    if kind == 'none':
+        return None
+    if kind == 'rs':
+        return numpy.random.RandomState(seed)
+    return seed
 
 
 def check_call(case, info=None):
-    """case: {kind:'call', fn:'shuffle'|'dinuc', A, seqs:[...] | all_len:L, start, end (int|None),
-    n, seed, dtype, det: bool}.  -> list of violation strings; info['returned'] set"""
-    fn, A, s, end, n, seed = case['fn'], case['A'], case['start'], case['end'], case['n'], case['seed']
+    """case: {kind:'call', fn:'shuffle'|'dinuc', A, seqs:[...] | all_len:L | gen:{B,L,seed,mode}, start (int|None = omitted),
+    end (int >= 0 | negative | None = omitted), n (int|None = omitted), seed, dtype, det: bool,
+    optional: strided (non-contiguous input), seedkind 'int'|'npint'|'none'|'rs' (how the seed is passed to the first call),
+    verbose (first call with verbose=True, dinuc only), layout (repeat call on the same values in another memory layout)}.
+    -> list of violation strings; info['returned'] set"""
+    fn, A, s_arg, end, n_arg, seed = case['fn'], case['A'], case['start'], case['end'], case['n'], case['seed']
     idx = _case_idx(case)
     L = idx.shape[1]
     dtype = _DT[case.get('dtype', 'int8')]
@@ -244,10 +305,13 @@ def check_call(case, info=None):
         big[:, :, ::2] = X
         X = big[:, :, ::2]
     X0 = X.clone()
-    e = L if end is None else end
+    s = 0 if s_arg is None else s_arg
+    e = L if end is None else (L + 1 + end if end < 0 else end)
+    seedkind = case.get('seedkind', 'int')
+    verbose = bool(case.get('verbose')) and fn == 'dinuc'
     out = []
     try:
-        Y = _call(fn, X, s, end, n, seed)
+        Y = _call(fn, X, s_arg, end, n_arg, _seed_arg(seed, seedkind), verbose)
     except Exception as ex:
         # not returning is allowed by the statement ("every sequence returned ...")
         if info is not None:
@@ -258,24 +322,35 @@ def check_call(case, info=None):
         return out
     if info is not None:
         info['returned'] = True
+    n = n_arg
+    if n is None:                           # n omitted: the statement does not name the default; read it off the result
+        n = int(Y.shape[1]) if isinstance(Y, torch.Tensor) and Y.dim() == 4 else 1
+    if info is not None:
+        info['n'] = n
     out += oracle(fn, idx, X0, Y, A, s, e, n, end is None)
     if not torch.equal(X, X0):
         out.append('the input tensor was modified')
-    if case.get('det', True):
+    if case.get('det', True) and seedkind in ('int', 'npint'):
         _disturb(seed % 1000)
+        X2 = X0.clone()
+        if case.get('layout'):              # same values, position axis has stride 1 no more
+            X2 = X0.transpose(1, 2).contiguous().transpose(1, 2)
         try:
-            Y2 = _call(fn, X0.clone(), s, end, n, seed)
+            Y2 = _call(fn, X2, s_arg, end, n_arg, seed)
             same = isinstance(Y2, torch.Tensor) and Y2.shape == Y.shape and torch.equal(Y2, Y)
         except Exception as ex:
             same = False
         if not same:
-            out.append('not deterministic: a second call with the same (input, region, n, seed=%d) returned a different result' % seed)
+            how = ''.join([', first call with the seed as numpy.int64 and second as int' if seedkind == 'npint' else '',
+                           ', first call with verbose=True and second with verbose=False' if verbose else '',
+                           ', second call on the same values in another memory layout' if case.get('layout') else ''])
+            out.append('not deterministic: a second call with the same (input, region, n, seed=%d) returned a different result%s' % (seed, how))
     return out
 
 
 def _minimise(case, viol):
     """try to reproduce a batch violation on the single offending sequence"""
-    if 'all_len' not in case and len(case.get('seqs', [])) <= 1:
+    if 'all_len' not in case and 'gen' not in case and len(case.get('seqs', [])) <= 1:
         return case, viol
     import re
     m = re.search(r'\(example (\d+)\)', viol[0])
@@ -283,9 +358,9 @@ def _minimise(case, viol):
         return case, viol
     b = int(m.group(1))
     idx = _case_idx(case)
-    small = {k: v for k, v in case.items() if k not in ('all_len', 'seqs', 'stride', 'offset')}
+    small = {k: v for k, v in case.items() if k not in ('all_len', 'seqs', 'stride', 'offset', 'gen')}
     small['seqs'] = [_s(idx[b])]
-    if case['fn'] == 'dinuc':
+    if case['fn'] == 'dinuc' and case.get('seedkind', 'int') in ('int', 'npint'):
         small['seed'] = case['seed'] + b      # per-example seed of the pinned implementation (only a guess: verified below)
     v2 = check_call(small)
     if v2:
@@ -335,11 +410,17 @@ def _do_call(rep, case, key, section, stats, sample=None):
     returned = info.get('returned', False)
     rep.case(key, nontrivial=returned, sample=sample, section=section)
     stats['calls'] = stats.get('calls', 0) + 1
-    nseq = len(range(case.get('offset', 0), case['A'] ** case['all_len'], case.get('stride', 1))) if 'all_len' in case else len(case['seqs'])
-    if returned:
-        stats['outputs'] = stats.get('outputs', 0) + nseq * case['n']
+    if 'all_len' in case:
+        nseq = len(range(case.get('offset', 0), case['A'] ** case['all_len'], case.get('stride', 1)))
     else:
-        stats['raised:' + case['fn']] = stats.get('raised:' + case['fn'], 0) + 1
+        nseq = case['gen']['B'] if 'gen' in case else len(case['seqs'])
+    if returned:
+        stats['outputs'] = stats.get('outputs', 0) + nseq * info.get('n', 1)
+    else:
+        stats['raised:' + section] = stats.get('raised:' + section, 0) + 1
+        rk = 'raised[%s]:%s' % (section, info.get('raised'))
+        if section.endswith('-variant') or section.endswith('-long'):
+            stats[rk] = stats.get(rk, 0) + 1
     if viol:
         c2, v2 = _minimise(case, viol)
         for w in v2:
@@ -354,16 +435,27 @@ def _do_call(rep, case, key, section, stats, sample=None):
 class _Source:
     """enumerating stand-in for numpy.random inside _fast_shuffle.py_func: the k-th permutation
     request of a run takes the choice trail[k] (index into the lexicographic list of permutations);
-    requests beyond the trail take choice 0 and extend it"""
+    requests beyond the trail take choice 0 and extend it.
+    Sampled mode (longer sequences, where the outcomes cannot be enumerated): a trail entry may also be
+    an explicit permutation (list); with a `sampler` (random.Random) requests beyond the trail draw a
+    uniform permutation and record it explicitly, so the stored trail replays without the sampler"""
 
     def __init__(self):
         self.reset([])
 
-    def reset(self, trail):
-        self.trail = list(trail)
+    def reset(self, trail, sampler=None):
+        self.trail = [list(t) if isinstance(t, (list, tuple)) else t for t in trail]
         self.radix = []
         self.pos = 0
         self.unsupported = None
+        self.sampler = sampler
+
+    def _radix(self, r):
+        if self.pos < len(self.radix):
+            self.radix[self.pos] = r
+        else:
+            self.radix.append(r)
+        self.pos += 1
 
     _perm_cache = {}
 
@@ -376,17 +468,28 @@ class _Source:
 
     def _choose(self, k):
         k = max(int(k), 0)      # numba: permutation(-1) is the empty permutation
+        ent = self.trail[self.pos] if self.pos < len(self.trail) else None
+        if isinstance(ent, list) or (ent is None and self.sampler is not None) or k > 8:
+            if isinstance(ent, list) and sorted(ent) == list(range(k)):
+                p = ent
+            elif ent is None and self.sampler is not None:
+                p = list(range(k))
+                self.sampler.shuffle(p)
+            else:                               # a stored permutation that no longer fits / too long to enumerate
+                p = list(range(k))
+            if self.pos < len(self.trail):
+                self.trail[self.pos] = p
+            else:
+                self.trail.append(p)
+            self._radix(1)
+            return numpy.array(p, dtype=numpy.int64)
         perms = self._perms(k)
         if self.pos < len(self.trail):
             c = self.trail[self.pos] % len(perms)
         else:
             c = 0
             self.trail.append(0)
-        if self.pos < len(self.radix):
-            self.radix[self.pos] = len(perms)
-        else:
-            self.radix.append(len(perms))
-        self.pos += 1
+        self._radix(len(perms))
         return perms[c]
 
     # numpy.random API used by the walk
@@ -478,13 +581,16 @@ def _walk_level(seq, A, n, args):
     return out
 
 
-def _session(A, seq, n, trail, enumerate_all):
-    """ONE call of the public dinucleotide_shuffle on the whole sequence with ersatz._fast_shuffle
-    replaced by its python body under the enumerating source.  The arrays handed back to the
-    caller are those of the outcome `trail`; with enumerate_all every other outcome is first run
-    on copies of the (real) successor tables and filtered by _walk_level."""
+def _session(A, seq, n, trail, enumerate_all, region=None, sampler=None):
+    """ONE call of the public dinucleotide_shuffle on the region (default: the whole sequence) with
+    ersatz._fast_shuffle replaced by its python body under the enumerating source.  The arrays handed
+    back to the caller are those of the outcome `trail` (continued by `sampler` if given); with
+    enumerate_all every other outcome is first run on copies of the (real) successor tables and
+    filtered by _walk_level."""
     idx = _idx_of([seq])
     L = idx.shape[1]
+    rs, re_ = region if region is not None else (0, L)
+    reg = seq[rs:re_]
     X = _ohe(idx, A, torch.int8)
     X0 = X.clone()
     walk = _py_walk()
@@ -507,10 +613,10 @@ def _session(A, seq, n, trail, enumerate_all):
                 tr = _SRC.trail[:_SRC.pos]
                 ses['outcomes'] += 1
                 ses['trails'].append(tr)
-                if err is not None or _walk_level(seq, A, n, a2):
+                if err is not None or _walk_level(reg, A, n, a2):
                     ses['suspects'].append(tr)
                 t = _SRC.advance()
-        _SRC.reset(trail)
+        _SRC.reset(trail, sampler)
         r = walk(*args, **kw)
         ses['args'] = args
         return r
@@ -519,7 +625,7 @@ def _session(A, seq, n, trail, enumerate_all):
     ersatz._fast_shuffle = wrapper
     try:
         try:
-            ses['Y'] = ersatz.dinucleotide_shuffle(X, 0, L, n=n, random_state=0)
+            ses['Y'] = ersatz.dinucleotide_shuffle(X, rs, re_, n=n, random_state=0)
             ses['returned'] = True
         except Exception as ex:
             ses['returned'] = False
@@ -533,46 +639,72 @@ def _session(A, seq, n, trail, enumerate_all):
 
 
 def check_walk(case, info=None):
-    """case: {kind:'walk', A, seq, n, trail}: the public dinucleotide_shuffle on the whole sequence with
-    the walk driven by the stored trail of permutation choices (index of each requested permutation
-    in lexicographic order)."""
+    """case: {kind:'walk', A, seq, n, trail, optional start, end}: the public dinucleotide_shuffle on the
+    region [start, end) (default: the whole sequence) with the walk driven by the stored trail of
+    permutation choices (index of each requested permutation in lexicographic order, or the
+    permutation itself)."""
     A, seq, n = case['A'], case['seq'], case['n']
-    ses = _session(A, seq, n, case.get('trail', []), False)
-    return _judge(ses, A, seq, n, info)
+    region = _case_region(case)
+    ses = _session(A, seq, n, case.get('trail', []), False, region)
+    return _judge(ses, A, seq, n, info, region)
 
 
-def _judge(ses, A, seq, n, info=None):
+def _case_region(case):
+    if case.get('start') is None and case.get('end') is None:
+        return None
+    return (case.get('start') or 0, len(case['seq']) if case.get('end') is None else case['end'])
+
+
+def _judge(ses, A, seq, n, info=None, region=None):
     L = len(seq)
+    rs, re_ = region if region is not None else (0, L)
     if info is not None:
         info.update({k: ses.get(k) for k in ('returned', 'raised', 'walked', 'unsupported', 'trail', 'outcomes', 'suspects')})
     if not ses['returned']:
         return []       # the statement conditions on "returns at all"
     Y = ses['Y']
-    tag = 'under permutation outcomes %s: ' % (ses['trail'],)
+    tag = 'under permutation outcomes %s%s: ' % (_short(str(ses['trail']), 300), '' if region is None else ' on the region [%d,%d)' % (rs, re_))
     if not isinstance(Y, torch.Tensor) or Y.dim() != 4 or Y.shape[0] != 1:
         return [tag + 'result has shape %s, expected (1, %d, %d, %d)' % (tuple(getattr(Y, 'shape', ())), n, A, L)]
-    out = [tag + w for w in oracle_py('dinuc', seq, Y[0].tolist(), A, 0, L, n, False)]
+    out = [tag + w for w in oracle_py('dinuc', seq, Y[0].tolist(), A, rs, re_, n, False)]
     if not ses['unmodified']:
         out.append(tag + 'the input tensor was modified')
     if 'args' in ses:
-        out += [tag + w for w in _consumption(seq, A, n, ses['args'])]
+        out += [tag + w for w in _consumption(seq[rs:re_], A, n, ses['args'])]
     return out
 
 
-def _enumerate_walks(rep, A, seq, n, stats, precise=False):
+def _sampled_walk(rep, A, seq, n, region, wseed, stats):
+    """ONE sampled outcome of the internal permutations (for sequences too long to enumerate): the
+    permutations are drawn by random.Random(wseed) and stored explicitly in the case"""
+    ses = _session(A, seq, n, [], False, region, random.Random(wseed))
+    case = {'kind': 'walk', 'A': A, 'seq': seq, 'n': n, 'trail': ses['trail']}
+    if region is not None:
+        case['start'], case['end'] = region
+    rep.case(('walk-s', A, seq, n, region, wseed), nontrivial=bool(ses['returned']), sample=None, section='walk-sampled')
+    stats['walk sampled'] = stats.get('walk sampled', 0) + 1
+    if not ses['returned']:
+        stats['walk sampled raised'] = stats.get('walk sampled raised', 0) + 1
+    for w in _judge(ses, A, seq, n, None, region):
+        _report(rep, stats, 'dinuc walk: ' + w, case, _finding(w))
+
+
+def _enumerate_walks(rep, A, seq, n, stats, precise=False, region=None):
     """every outcome of every internal permutation for one sequence.
     precise: one public call per outcome.  Otherwise one public call per sequence: all outcomes are
     run on the real successor tables inside it and filtered at walk level; every suspect outcome is
     then re-run as its own public call and reported only if that call returns and violates."""
-    section = 'walk-enumerated(n=%d)' % n
+    section = 'walk-enumerated(n=%d)' % n if region is None else 'walk-enumerated-region'
+    rk = () if region is None else tuple(region)
+    rc = {} if region is None else {'start': region[0], 'end': region[1]}
     if precise:
         trail = []
         while trail is not None:
-            case = {'kind': 'walk', 'A': A, 'seq': seq, 'n': n, 'trail': trail}
+            case = dict({'kind': 'walk', 'A': A, 'seq': seq, 'n': n, 'trail': trail}, **rc)
             info = {}
             viol = check_walk(case, info)
             case['trail'] = info['trail']
-            rep.case(('walk', A, seq, n, tuple(info['trail'])), nontrivial=bool(info['returned']) and len(seq) >= 3, section=section + '/one-call-per-outcome')
+            rep.case(('walk', A, seq, n, tuple(info['trail'])) + rk, nontrivial=bool(info['returned']) and len(seq) >= 3, section=section + '/one-call-per-outcome')
             stats['walk outcomes'] = stats.get('walk outcomes', 0) + 1
             for w in viol:
                 _report(rep, stats, 'dinuc walk: ' + w, dict(case), _finding(w))
@@ -580,16 +712,16 @@ def _enumerate_walks(rep, A, seq, n, stats, precise=False):
                 break
             trail = _SRC.advance()
         return
-    ses = _session(A, seq, n, [], True)
+    ses = _session(A, seq, n, [], True, region)
     info = {}
-    case = {'kind': 'walk', 'A': A, 'seq': seq, 'n': n, 'trail': ses['trail']}
-    for w in _judge(ses, A, seq, n, info):
+    case = dict({'kind': 'walk', 'A': A, 'seq': seq, 'n': n, 'trail': ses['trail']}, **rc)
+    for w in _judge(ses, A, seq, n, info, region):
         _report(rep, stats, 'dinuc walk: ' + w, dict(case), _finding(w))
     k = max(ses['outcomes'], 1)
     stats['walk outcomes'] = stats.get('walk outcomes', 0) + k
     stats['walk sequences'] = stats.get('walk sequences', 0) + 1
     for i, tr in enumerate(ses['trails'] or [ses['trail']]):
-        rep.case(('walk', A, seq, n, tuple(tr)), nontrivial=bool(ses['returned']) and len(seq) >= 3,
+        rep.case(('walk', A, seq, n, tuple(tr)) + rk, nontrivial=bool(ses['returned']) and len(seq) >= 3,
                  sample=dict(case, outcomes=k) if i == 0 else None, section=section)
     if not ses['walked']:
         stats['walk not reached'] = stats.get('walk not reached', 0) + 1
@@ -599,7 +731,7 @@ def _enumerate_walks(rep, A, seq, n, stats, precise=False):
     if ses['suspects']:
         stats['walk suspects'] = stats.get('walk suspects', 0) + len(ses['suspects'])
     for tr in ses['suspects'][:3 if stats.get('walk suspects', 0) > 300 else 20]:
-        c2 = {'kind': 'walk', 'A': A, 'seq': seq, 'n': n, 'trail': tr}
+        c2 = dict({'kind': 'walk', 'A': A, 'seq': seq, 'n': n, 'trail': tr}, **rc)
         for w in check_walk(c2):
             _report(rep, stats, 'dinuc walk: ' + w, c2, _finding(w))
 
@@ -663,6 +795,7 @@ def run(rep):
     # ---- (b) enumerated walk (first: the part the statement singles out) -------------------
     full = {2: 8, 3: 8, 4: 8} if thorough else {2: 8, 3: 7, 4: 6}
     full2 = 6 if thorough else 5
+    full3 = 5 if thorough else 4
     precise_L = 5 if thorough else 4
     done = True
     for A in (2, 3, 4):
@@ -674,12 +807,14 @@ def run(rep):
                 _enumerate_walks(rep, A, seq, 1, stats)
                 if L <= full2:
                     _enumerate_walks(rep, A, seq, 2, stats)
+                if L <= full3:
+                    _enumerate_walks(rep, A, seq, 3, stats)
                 if L <= precise_L:
                     _enumerate_walks(rep, A, seq, 1, stats, precise=True)
                     _enumerate_walks(rep, A, seq, 2, stats, precise=True)
     if done:
         rep.mark_exhaustive('dinucleotide walk: every permutation outcome of every sequence of length <= %s (alphabet 2/3/4), n=1; length <= %d, n=2'
-                            % ('/'.join(str(full[a]) for a in (2, 3, 4)), full2))
+                            % ('/'.join(str(full[a]) for a in (2, 3, 4)), full2) + '; length <= %d, n=3' % full3)
     else:
         rep.note('time budget reached inside the enumerated walk')
     if not thorough:
@@ -690,6 +825,74 @@ def run(rep):
             _enumerate_walks(rep, A, _rand_seq(rng, A, L), 1, stats)
 
     mark('walk')
+    # ---- (b') the walk inside a region of a longer sequence; sampled outcomes on longer sequences ----
+    for k in range(1200 if thorough else 160):
+        if over(0.5):
+            break
+        A = rng.choice([2, 3, 4, 4])
+        L = rng.randint(4, 8 if A < 4 else 7)
+        s0 = rng.randrange(0, L - 2)
+        e0 = rng.randint(s0 + 3, L)
+        if (s0, e0) == (0, L):
+            s0 = 1
+        _enumerate_walks(rep, A, _rand_seq(rng, A, L), rng.choice([1, 1, 2]) if e0 - s0 <= 5 else 1, stats, region=(s0, e0))
+    for k in range(6000 if thorough else 700):
+        if over(0.52):
+            break
+        A = rng.choice([2, 3, 4, 4, 5, 6])
+        L = rng.randint(9, 70)
+        region = None
+        if rng.random() < 0.5:
+            s0 = rng.randrange(0, L - 2)
+            region = (s0, rng.randint(s0 + 3, L))
+        _sampled_walk(rep, A, _rand_seq(rng, A, L), rng.choice([1, 1, 2, 3]), region, rng.randrange(0, 2 ** 31), stats)
+    mark('walk region/sampled')
+
+    # ---- (a') variants of the call: rarely used arguments, alphabets, dtypes, seed kinds, long inputs ----
+    for k in range(4000 if thorough else 450):
+        if over(0.58):
+            rep.note('time budget reached inside the variant part after %d cases' % k)
+            break
+        A = rng.choice([2, 3, 4, 4, 5, 6, 20])
+        L = rng.randint(4, 12) if rng.random() < 0.3 else rng.randint(13, 90)
+        B = rng.randint(1, 3)
+        seqs = [_rand_seq(rng, A, L) for _ in range(B)]
+        r = rng.random()
+        if r < 0.12:                                    # everything but the seed omitted
+            s0, end, defaults = None, None, True
+        elif r < 0.45:                                  # explicit negative end: -1 ... -6, both readings non-empty
+            s0 = rng.randrange(0, max(L - 8, 1))
+            end, defaults = -rng.randint(1, min(6, L - s0 - 1)), False
+        else:
+            s0 = rng.randrange(0, L)
+            end, defaults = rng.randint(s0 + 1, L), False
+        seed = rng.choice([rng.randrange(0, 1000), rng.randrange(0, 2 ** 31 - 8)])
+        dtype = rng.choice(['int8', 'uint8', 'int16', 'int32', 'int64', 'float16', 'float32', 'float64', 'bool'])
+        for fn in ('shuffle', 'dinuc'):
+            n = None if defaults else (rng.choice([1, 2, 3, 7]) if fn == 'shuffle' else rng.choice([1, 1, 2, 3, 20]))
+            case = {'kind': 'call', 'fn': fn, 'A': A, 'seqs': seqs, 'start': s0, 'end': end, 'n': n, 'seed': seed, 'dtype': dtype, 'det': True,
+                    'strided': rng.random() < 0.15, 'seedkind': rng.choice(['int', 'npint', 'npint', 'none', 'rs' if fn == 'shuffle' else 'int']),
+                    'verbose': fn == 'dinuc' and rng.random() < 0.6, 'layout': rng.random() < 0.35}
+            _do_call(rep, case, ('V', fn, k), fn + '-variant', stats, sample=case if k < 1 else None)
+    long_L = [257, 300, 1000, 33000, 66000, 70000]
+    for k in range(40 if thorough else 8):
+        if over(0.6):
+            break
+        A = rng.choice([2, 3, 4, 4])
+        L = long_L[k % len(long_L)] + (rng.randrange(0, 500) if k >= len(long_L) else 0)
+        r = rng.random()
+        if r < 0.4 or (L < 600 and r < 0.8):
+            s0, end = 0, L
+        elif r < 0.5 or L < 600:
+            s0, end = rng.randrange(0, L - 256), None
+        else:
+            s0 = rng.randrange(0, L - 300)
+            end = rng.randint(s0 + 257, L)              # region itself longer than 256
+        for fn in ('shuffle', 'dinuc'):
+            case = {'kind': 'call', 'fn': fn, 'A': A, 'gen': {'B': rng.randint(1, 2), 'L': L, 'seed': rng.randrange(0, 2 ** 31), 'mode': rng.choice(['uniform', 'runs'])},
+                    'start': s0, 'end': end, 'n': rng.choice([1, 2]), 'seed': rng.randrange(0, 2 ** 31 - 8), 'dtype': rng.choice(['int8', 'float32']), 'det': True}
+            _do_call(rep, case, ('G', fn, k), fn + '-long', stats)
+    mark('variants/long')
     # ---- (a) compiled functions on the small scope -------------------------------------------
     # quick: all sequences while A**L <= 512 (dinucleotide: 200 us per example) resp. 4096 (shuffle),
     # otherwise every stride-th sequence of the lexicographic list
